@@ -2,6 +2,7 @@ import Rare.Base.Proto
 import Rare.Model.C02
 import Rare.Model.C02Filter
 import Rare.Model.C02Plan
+import Rare.Model.C16
 import Rare.Drv.C01
 import Rare.Gen.C02
 namespace Rare.Drv.C02
@@ -28,6 +29,10 @@ def ansOf : Except String KeyAns → String
 * `plan <matchSet> <dissectSet> <posix> <ignoreCase> <matchExpr> <dissectExpr> <line> <candidates>` – the matcher
   `BuildMatcherFromArguments` selects, applied to the line: the model picks among the engines' own answers
   (`re(e); re((?i)e); posix(e); posix((?i)e); dissect(d,false); dissect(d,true)`, `E` = does not compile);
+* `named <pattern> <line> <SubexpNames> <indices> <key>` – `{key}` evaluated by the extractor on a line matched by a
+  real regex: the model builds the name table from the `SubexpNames()` list as the regex wrapper does
+  (`C16.regexNameTable`) and looks the key up with `getKey` (decimal keys go to `GetMatch`); the pattern is only
+  used by the implementation side;
 * `vis <bytes>` – `color.StrLen`'s visible bytes (count compared with the real `StrLen`);
 * `pipe …`, `regexpipe <n>` – pipeline ops shared with C01.
 -/
@@ -78,6 +83,16 @@ def handle : List String → String
         else if e == icPrefix ++ matchExpr then pick (if p then 3 else 1)
         else "bad-plan"
     | _, _, _ => "bad-args"
+  | ["named", _, l, ns, ix, key] =>
+    match Hex.dec l, decHexList ns, decInts ix, Hex.dec key with
+    | some line, some names, some indices, some k =>
+      let c : MatchCtx := ⟨line, indices, Rare.C16.regexNameTable names, ascii "s0", 1⟩
+      match atoi k with
+      | some i => match getMatch line indices i with
+        | .ok b => s!"ok {Hex.enc b}"
+        | .error _ => "panic"
+      | none => ansOf (getKey c k)
+    | _, _, _, _ => "bad-args"
   | ["vis", b] =>
     match Hex.dec b with
     | some bytes =>
